@@ -828,6 +828,67 @@ class Core:
                     + pad + f"{P}cond {test}{EV} effs (\n{a}) (\n{b})")
         raise Untranslatable(f"{where()}: statement {type(s).__name__}")
 
+    # ---------------------------------------------------------------- object aliases
+    def unalias(self, f):
+        """`csvpath = self.matcher.csvpath` followed by `csvpath.x`: a local that names an object reached from self. Every use of the local
+        as the base of an attribute is rewritten to the path (sound while the method does not assign the path or the local again);
+        the assignment itself goes when the local is not used in any other way."""
+        import copy
+
+        cand = {}
+        stores = {}
+        for node in ast.walk(f):
+            if isinstance(node, ast.Name) and isinstance(node.ctx, ast.Store):
+                stores[node.id] = stores.get(node.id, 0) + 1
+        for node in ast.walk(f):
+            if isinstance(node, ast.Assign) and len(node.targets) == 1 and isinstance(node.targets[0], ast.Name) \
+                    and isinstance(node.value, ast.Attribute) and (dotted(node.value) or "").startswith("self.") \
+                    and "(" not in dotted(node.value) and stores.get(node.targets[0].id) == 1:
+                cand[node.targets[0].id] = node.value
+        if not cand:
+            return f
+        used_as_base = set()
+        for node in ast.walk(f):
+            if isinstance(node, ast.Attribute) and isinstance(node.value, ast.Name) and node.value.id in cand:
+                used_as_base.add(node.value.id)
+        cand = {k: v for k, v in cand.items() if k in used_as_base}
+        if not cand:
+            return f
+        # the path must not be written in the method
+        for node in ast.walk(f):
+            if isinstance(node, (ast.Assign, ast.AugAssign)):
+                for t in (node.targets if isinstance(node, ast.Assign) else [node.target]):
+                    d = dotted(t) if isinstance(t, ast.Attribute) else None
+                    for k, v in list(cand.items()):
+                        if d is not None and (dotted(v) == d or dotted(v).startswith(d + ".")):
+                            del cand[k]
+        if not cand:
+            return f
+        g = copy.deepcopy(f)
+
+        class Sub(ast.NodeTransformer):
+            def visit_Attribute(self2, node):
+                self2.generic_visit(node)
+                if isinstance(node.value, ast.Name) and node.value.id in cand:
+                    node.value = copy.deepcopy(cand[node.value.id])
+                return node
+        g = Sub().visit(g)
+        ast.fix_missing_locations(g)
+        bare = set()
+        for node in ast.walk(g):
+            if isinstance(node, ast.Name) and isinstance(node.ctx, ast.Load) and node.id in cand:
+                bare.add(node.id)
+
+        class Drop(ast.NodeTransformer):
+            def visit_Assign(self2, node):
+                if len(node.targets) == 1 and isinstance(node.targets[0], ast.Name) and node.targets[0].id in cand \
+                        and node.targets[0].id not in bare:
+                    return ast.copy_location(ast.Pass(), node)
+                return node
+        g = Drop().visit(g)
+        ast.fix_missing_locations(g)
+        return g
+
     # ---------------------------------------------------------------- functions
     def translate(self, cls, m, prefix="self", elem_params=None):
         elem_params = elem_params or {}
@@ -835,7 +896,7 @@ class Core:
         if name in self.emitted:
             return name
         self.emitted[name] = None  # in progress
-        f = self.methods[(cls, m)]
+        f = self.unalias(self.methods[(cls, m)])
         pos, kwonly, _ = self.signature(cls, m)
         params = pos + kwonly
         recs = self.records.get((cls, m), set())
